@@ -1146,6 +1146,19 @@ func (w *c17World) apply(o C17Op) (transientEmpty bool) {
 		w.build(b)
 		transientEmpty = true
 	case "inplace":
+		// when the new bytes are as long as the old ones, every other such
+		// rewrite overwrites them without truncating and then puts the old
+		// modification time back (rsync --inplace -t, normalised deploy
+		// timestamps): same inode, same size, same mtime, other content
+		if fi, err := os.Stat(w.real); err == nil && fi.Mode().IsRegular() && fi.Size() == int64(len(b)) && w.seq%2 == 0 {
+			f, err := os.OpenFile(w.real, os.O_WRONLY, 0)
+			c17Must(err)
+			_, err = f.Write(b)
+			c17Must(err)
+			c17Must(f.Close())
+			c17Must(os.Chtimes(w.real, fi.ModTime(), fi.ModTime()))
+			break
+		}
 		f, err := os.OpenFile(w.real, os.O_WRONLY|os.O_TRUNC, 0)
 		c17Must(err)
 		_, err = f.Write(b) // one write(2): readers see nothing or everything
